@@ -1,5 +1,6 @@
 import Proofs.Lemmas.Registry
 import Proofs.Lemmas.Waiters
+import Proofs.Lemmas.RegAtomic
 /-!
   C12 — the reverse-tunnel registry always matches the set of open reverse
   tunnels.  API-granular model (`TunnelModel/Lifecycle.lean`,
@@ -106,5 +107,59 @@ open TunnelModel.Waiters TunnelModel.RoundRobin in
 theorem C12_waiters_refine_pool (ops : List Op) :
     Proofs.Waiters.abs (run ops) = ops.foldl Proofs.Waiters.poolStep Pool.empty :=
   Proofs.Waiters.abs_run ops
+
+/-! ### registration below quiescence: every interleaving of the registration and unregistration steps
+     (L-atomic model `TunnelModel/RegAtomic.lean`) -/
+
+open TunnelModel.RegAtomic Proofs.RegAtomic in
+/-- **The registry is exact at every resting state, under every interleaving.**
+    `n` reverse tunnels with arbitrary (colliding) keys; for each, the
+    registration goroutine of `openReverseTunnel` (add to the global pool,
+    look up or create the key's pool, add to it, park, and after the close the
+    two deferred removes) and the `unregister` callback run by whoever closes
+    the channel, at ANY time — even before the tunnel was added.  One action =
+    one critical section.  In every reachable state in which no goroutine can
+    move by itself, tunnel `t` is in the global pool iff it is in the pool
+    registered for ITS key iff it is open and fully registered, and it is in
+    no other pool. -/
+theorem C12_registry_exact_at_rest (keys : List Nat) (as : List Act) {s : St}
+    (hr : run true false (init keys) as = some s) (hrest : resting false s = true)
+    (t : Nat) (ht : t < keys.length) :
+    ∃ x, s.tuns[t]? = some x ∧ x.key = keys[t] ∧ ExactAt s t x :=
+  registry_exact_at_rest keys as hr hrest t ht
+
+open TunnelModel.RegAtomic Proofs.RegAtomic in
+/-- exactness about tunnel `t` needs only ITS registration goroutine to be at rest -/
+theorem C12_registry_exact_tunnel (keys : List Nat) (as : List Act) {s : St}
+    (hr : run true false (init keys) as = some s) {t : Nat} {x : Tun}
+    (hx : s.tuns[t]? = some x) (hg : x.gResting false = true) : ExactAt s t x :=
+  registry_exact_tunnel keys as hr hx hg
+
+open TunnelModel.RegAtomic Proofs.RegAtomic in
+/-- **One pool per key, ever**: two goroutines (registering or unregistering) that hold a pool for the same key hold the same one, the one in the map -/
+theorem C12_one_pool_per_key (keys : List Nat) (as : List Act) {s : St}
+    (hr : run true false (init keys) as = some s) {t t' : Nat} {x x' : Tun}
+    (ht : s.tuns[t]? = some x) (ht' : s.tuns[t']? = some x') (hk : x.key = x'.key)
+    {p p' : Nat} (hp : HoldsPool x p) (hp' : HoldsPool x' p') :
+    p = p' ∧ assoc x.key s.byKey = some p ∧ p < s.pools.length :=
+  one_pool_per_key keys as hr ht ht' hk hp hp'
+
+open TunnelModel.RegAtomic Proofs.RegAtomic in
+/-- no goroutine is stuck by itself, and every schedule is finite (at most ten actions per tunnel) -/
+theorem C12_registration_progress (keys : List Nat) (as : List Act) {s : St}
+    (hr : run true false (init keys) as = some s) :
+    (resting true s = false → ∃ a, (step true false s a).isSome = true) ∧ as.length ≤ 10 * keys.length :=
+  ⟨progress keys as hr, by have := schedule_bounded keys as hr; omega⟩
+
+open TunnelModel.RegAtomic Proofs.RegAtomic in
+/-- **Why the pool look-up and creation must be ONE critical section** (the
+    seeded change C12-double-checked-pool-creation; code-level premise:
+    `C15_one_critical_section_per_function`): with a read-locked look-up and an
+    unconditional create, two tunnels with the same key end open, parked — and in
+    different pools, one of them orphaned. -/
+theorem C12_double_checked_creation_orphans_a_pool :
+    ∃ s x, run false false (init [7, 7]) doubleChecked = some s ∧ resting true s = true ∧
+      s.tuns[0]? = some x ∧ ¬ ExactAt s 0 x :=
+  faulty_double_checked_not_exact
 
 end Proofs.C12
